@@ -1326,6 +1326,7 @@ fn api_oracle(c: &ApiCase, ctx: &mut Ctx) -> CaseResult {
 
 fn main() {
 	install_recording_signer();
+	netsim::rec::tolerate_monitor_roundtrip_tripwire();
 	let mut c = Check::new("C04", "exploration");
 	c.assume("senders are unmodified LDK nodes whose send API is called with adversarial RecipientOnionFields, amounts, totals and final CLTV deltas; one HTLC per send call, direct channels to R");
 	c.assume("R's clock is the highest block header time it has seen; registrations expire at registration time + expiry + 7200 s (LDK's margin); MPP timeout: may fail from the first timer tick (test builds), must fail after 3");
